@@ -68,8 +68,8 @@ struct PipeCore {
     rpos: usize,
     rwaker: Option<Waker>,
     wwaker: Option<Waker>,
-    served_werr: [u64; 4],
-    served_rerr: [u64; 4],
+    served_werr: [u64; NK],
+    served_rerr: [u64; NK],
     layout: Layout,
     obs: Rc<RefCell<Obs>>,
 }
@@ -291,10 +291,10 @@ struct Shared {
     inflight: Option<Vec<u8>>,
     writer_done: bool,
     writer_died: bool,
-    w_ret_err: [u64; 4],
+    w_ret_err: [u64; NK],
     w_violation: Option<Violation>,
     results: Vec<(RRes, usize)>,
-    r_ret_err: [u64; 4],
+    r_ret_err: [u64; NK],
     reader_done: bool,
     cancels_w: u64,
     cancels_r: u64,
@@ -503,8 +503,8 @@ impl<'s> Run<'s> {
             rpos: 0,
             rwaker: None,
             wwaker: None,
-            served_werr: [0; 4],
-            served_rerr: [0; 4],
+            served_werr: [0; NK],
+            served_rerr: [0; NK],
             layout: layout.clone(),
             obs: obs.clone(),
         }));
